@@ -191,11 +191,14 @@ def build(S, kind, p, nb=2, c=3, requires_grad=False, contig=True):
         hb = S.interp.getattr(m, 'h1a' if p['highpass'] else 'h0a')
         return fn, (x, ha, hb, p['highpass'], p['mode']), [(b, x)], p['fn']
     if kind in ('scat1', 'scat2'):
+        from .. import nonlin
         if kind == 'scat1':
-            m = S.construct(SC, 'ScatLayer', biort=p['biort'], combine_colour=p['combine_colour'])
+            m = S.construct(SC, 'ScatLayer', biort=p['biort'], combine_colour=p['combine_colour'],
+                            magbias=nonlin.Param('b'))
         else:
             q = 'qshift_b_bp' if p['biort'] == 'near_sym_b_bp' else 'qshift_a'
-            m = S.construct(SC, 'ScatLayerj2', biort=p['biort'], qshift=q, combine_colour=p['combine_colour'])
+            m = S.construct(SC, 'ScatLayerj2', biort=p['biort'], qshift=q, combine_colour=p['combine_colour'],
+                            magbias=nonlin.Param('b'))
         b, x = mk('x', [p['H'], p['W']])
         return S.method(m, 'forward'), (x,), [(b, x)], 'ScatLayer' if kind == 'scat1' else 'ScatLayerj2'
     raise ValueError(kind)
